@@ -14,7 +14,7 @@ RULE = ('G1 programs rendered with line comments, single-line and multi-line blo
         'same kind there, its line/column agree with reference counting, offsets strictly increase within a node and '
         'no offset is attached twice in the tree; (c) o = pretty_print(tree); parse(o, with_comments=True) has the same '
         'canonical tree and the same sequence of comment values in traversal order, and the reference parser reads o '
-        'as the same tree. The library documents that not every comment is captured; no comment is required to be '
+        'as the same tree; (d) histories: a small pool of commented programs checked as above in an interpreter of its own whose first rendering of comments went through another printer (minify with captured comments, the minimum rule set, str() of a tree with only a block comment, ...). The library documents that not every comment is captured; no comment is required to be '
         'attached. non-trivial = >= 2 comments attached, at least one not at a statement start; distinct by text')
 ASSUMPTIONS = c03.ASSUMPTIONS
 
@@ -219,7 +219,81 @@ def _leftmost_step(node):
 
 
 def replay(case, acc):
+    if 'first' in case:
+        from harness import build
+        root = build.make_copy()
+        try:
+            check_history(acc, (), root, case['first'], [case['text']])
+        finally:
+            build.remove(root)
+        return
     check(acc, (), case['text'], case.get('origin', 'replay'))
+
+
+# ---- what was printed first in the process must not matter: each history runs in an interpreter of its own,
+# where the first comments ever rendered go through some other printer
+FIRSTS = ['none', 'minify_with_comments', 'minimum_rules', 'str_block_comment_only', 'minify_line_comment_only',
+          'minify_obfuscate', 'pretty_without_capture']
+HISTORY_TEXTS = ['/*lead*/ a = 1; // tail\nb = 2;', '// only line\nfoo();\n/* block */\nbar();',
+                 'function f(a) { /*b*/ return a; }\n// end\nf(1);', 'var x = 1, /*y*/ y = 2;',
+                 '/* one */ /* two */ // three\nz;', 'if (p) { // c\n q(); }']
+
+
+def do_first(first):
+    from calmjs.parse import es5
+    from calmjs.parse.unparsers.es5 import Unparser, minify_print, pretty_print
+    src = '/*a*/ x = 1; // b\n y;'
+    if first == 'minify_with_comments':
+        es5.minify_print(src, with_comments=True)
+    elif first == 'minimum_rules':
+        from calmjs.parse.handlers.core import minimum_rules
+        ''.join(c.text for c in Unparser(rules=(minimum_rules,))(es5(src, with_comments=True)))
+    elif first == 'str_block_comment_only':
+        str(es5('/*a*/ x;', with_comments=True))
+    elif first == 'minify_line_comment_only':
+        minify_print(es5('// b\n y;', with_comments=True))
+    elif first == 'minify_obfuscate':
+        minify_print(es5(src, with_comments=True), obfuscate=True, obfuscate_globals=True)
+    elif first == 'pretty_without_capture':
+        pretty_print(es5(src))
+
+
+CHILD_CODE = r'''
+import json
+sys.path.insert(0, sys.argv[1])
+from harness.runner import Acc
+from props import c13
+first, texts, opens = json.loads(sys.argv[2])
+c13.do_first(first)
+acc = Acc()
+infos = []
+for t in texts:
+    info = c13.check(acc, opens, t, 'history')
+    infos.append(info and {'attached': info['attached'], 'output': info.get('output')})
+print(json.dumps({'failures': acc.failures, 'known': dict(acc.known), 'infos': infos}))
+'''
+
+
+def check_history(acc, opens, root, first, texts):
+    import json
+    import os
+    import subprocess
+    import sys
+    from harness import build
+    here = os.path.dirname(os.path.dirname(os.path.abspath(__file__)))
+    p = subprocess.run([sys.executable, '-c', build.boot_code(root) + CHILD_CODE, here,
+                        json.dumps([first, texts, list(opens)])],
+                       env=build.child_env(root), capture_output=True, text=True, timeout=600)
+    if p.returncode != 0:
+        acc.fail(None, {'first': first, 'text': texts[0]}, {'bucket': 'history_child_fails', 'stderr': p.stderr[-400:]},
+                 opens)
+        return []
+    r = json.loads(p.stdout.strip().splitlines()[-1])
+    for f in r['failures']:
+        acc.fail(f['signature'], dict(f['case'], first=first), dict(f['detail'], first=first), opens)
+    for k, n in r['known'].items():
+        acc.known[k] += n
+    return r['infos']
 
 
 from harness.shrink import text_shrinker  # noqa: E402
@@ -237,6 +311,8 @@ def plan(tier, seed):
     # every automatic-semicolon point and inside restricted productions, multi-line ones included
     for k in range(16):
         shards.append({'name': 'asi-%d' % k, 'kind': 'asi', 'k': k, 'of': 16, 'stride': 6 if tier == 'quick' else 1})
+    for first in FIRSTS:
+        shards.append({'name': 'history-' + first, 'kind': 'history', 'first': first})
     return shards
 
 
@@ -253,7 +329,13 @@ def run_shard(shard):
             acc.label('attached_%d' % min(info['attached'], 6))
             acc.extra['comments_attached'] = acc.extra.get('comments_attached', 0) + info['attached']
             acc.extra['comments_in_sources'] = acc.extra.get('comments_in_sources', 0) + info['source_comments']
-    if shard['kind'] == 'asi':
+    if shard['kind'] == 'history':
+        infos = check_history(acc, opens, shard['root'], shard['first'], HISTORY_TEXTS)
+        for t, info in zip(HISTORY_TEXTS, infos):
+            acc.case((shard['first'], t), bool(info) and info['attached'] >= 2,
+                     {'first': shard['first'], 'text': t, 'output': info.get('output')} if info else None)
+            acc.label('history_first_' + shard['first'])
+    elif shard['kind'] == 'asi':
         from props import c04
         n = 0
         for idx, (src, meta) in enumerate(c04.product_cases()):
